@@ -277,12 +277,28 @@ func h12c() {
 	verifAssert(zzBytesDiff(buf.Bytes(), want) == 0, "encode-response-echo")
 
 	resp2, _ := Default.ReadRequest(nil, et, zzReqReader(rk&1, req), &zzBody{})
+	// another request (other name and seqid, same framing) is read before the
+	// first one is answered: a responder must keep its own request's identity
+	other2 := zzSpecEnvelope(framing, zzOtherName(name), et, ^seq, bspec)
+	_, oerr := Default.ReadRequest(nil, et, zzReqReader(rk&1, other2), &zzBody{})
+	verifAssert(oerr == nil, "second-request-accepted")
 	var buf2 bytes.Buffer
-	err = resp2.WriteResponse(wire.Reply, &buf2, &zzEnveloper{name: name, typ: wire.Reply, n: reply})
+	// the reply body reports its own method name (a generated result names the
+	// bare function); the envelope must echo the request's
+	err = resp2.WriteResponse(wire.Reply, &buf2, &zzEnveloper{name: "zzreply", typ: wire.Reply, n: reply})
 	verifAssert(err == nil, "write-response-ok")
 	verifAssert(buf2.Len() == len(want), "write-response-len")
 	verifAssert(zzBytesDiff(buf2.Bytes(), want) == 0, "write-response-echo")
 	verifReached("end")
+}
+
+// zzOtherName is a name of the same length with every byte changed.
+func zzOtherName(name string) string {
+	b := make([]byte, len(name))
+	for i := range b {
+		b[i] = name[i] ^ 0x55
+	}
+	return string(b)
 }
 
 func h12_witness() {
